@@ -953,6 +953,10 @@ func randPropFilter(r *rand.Rand, comps []Comp) PropFilter {
 			pa.Name = tp.Name
 			pvals = tp.Vals
 		}
+		if r.Intn(6) == 0 {
+			// the same name in another letter case (names are case-insensitive)
+			pa.Name = []string{strings.ToLower(pa.Name), strings.Title(strings.ToLower(pa.Name))}[r.Intn(2)]
+		}
 		pa.IsNotDefined = r.Intn(5) == 0
 		if (!pa.IsNotDefined && r.Intn(2) == 0) || r.Intn(30) == 0 {
 			pa.Text = randText(r, pvals)
